@@ -515,6 +515,31 @@ func checkModeDispatch(p *core.Program, r *core.Report, ix *funcIndex, hu flow.F
 		}
 	}
 	if len(constCircuit) < 2 {
+		// the dispatch is not written in the action (prover.Setup(kind, …)): walk the action once per accepted constant and
+		// see which circuit the functions called under that constant compile
+		for _, c := range cliCommands(p) {
+			if c.Name != "setup" || c.Action.Node == nil {
+				continue
+			}
+			act := actionSSA(p, c)
+			for m := range modeConstants(p) {
+				found := map[string]bool{}
+				for fn := range calledUnderMode(p, act, modeConstants(p), m) {
+					if fn.Pkg != nil && fn.Pkg.Pkg.Name() == "prover" && fn.Signature.Recv() == nil {
+						if T, _, _ := circuitTypeOfFn(p, fn); T != nil {
+							found[typeKey(T)] = true
+						}
+					}
+				}
+				if len(found) == 1 {
+					for k := range found {
+						constCircuit[m] = k
+					}
+				}
+			}
+		}
+	}
+	if len(constCircuit) < 2 {
 		r.Undecided("O9.3", "main.cmd:setup: mode constant → circuit", "-", "cannot derive which circuit each mode constant compiles from the setup command (found %v)", constCircuit)
 		return
 	}
